@@ -199,6 +199,36 @@ theorem exec_ok {s s' : State} {op : Op} {rel : Coins} (inv : StoreInv s) (h : e
           · exact hs.2 o ho
           · exact hs.1
     · simp [hv, Except.map] at h
+  | bsend f t c =>
+    simp only [exec, bypassSend] at h
+    cases hv : coinsValid c
+    · simp [hv, Except.map] at h
+    · simp only [hv, Bool.not_true, Bool.false_eq_true, if_false] at h
+      cases hb : bankTransfers s true [⟨f, t, c⟩] with
+      | error e => simp [hb, Except.map] at h
+      | ok s1 =>
+        simp only [hb, Except.map, Except.ok.injEq, Prod.mk.injEq] at h
+        obtain ⟨rfl, _⟩ := h
+        obtain ⟨rfl, _, _⟩ := bankTransfers_bypass_ok hb
+        have hnn := coinsValid_nonneg hv
+        have hsl : f ≠ s.holder → ∀ d, slack { s with bank := Ledger.move s.bank f t c } d
+            = slack s d + (if t = s.holder then Coins.amountOf c d else 0) := by
+          intro hf d
+          unfold slack
+          show Ledger.bal (Ledger.move s.bank f t c) s.holder d - outstanding s d = _
+          rw [Ledger.bal_move]
+          simp [hf]
+          omega
+        refine ⟨inv_with_bank inv _, rfl, fun d => Ledger.supply_move _ _ _ _ _, fun d => rfl, ?_, ?_⟩
+        · intro hs d
+          have hf : f ≠ s.holder := by simpa [Op.holderNeverSigns] using hs
+          rw [hsl hf]
+          have := hnn d
+          split <;> omega
+        · intro hs d
+          simp only [Op.holderNotNamed, Bool.and_eq_true, decide_eq_true_eq] at hs
+          rw [hsl hs.1]
+          simp [hs.2]
   | accept to froms perm =>
     simp only [exec, msgAccept] at h
     cases hf : froms.isEmpty
@@ -314,6 +344,7 @@ theorem exec_transfer {s s' : State} {op : Op} {rel : Coins} (inv : StoreInv s) 
         obtain ⟨rfl, _⟩ := h
         exact bankTransfers_ok inv hb
     · simp [hv, Except.map] at h
+  | bsend f t c => simp [Op.xfers] at hop
   | optIn a => simp [Op.xfers] at hop
   | optOut a => simp [Op.xfers] at hop
   | auto to ups => simp [Op.xfers] at hop
